@@ -19,6 +19,7 @@ import (
 
 	"cuelabs.dev/go/oci/ociregistry"
 	"cuelabs.dev/go/oci/ociregistry/ocimem"
+	"cuelabs.dev/go/oci/ociregistry/ociunify"
 
 	"verifharness/internal/evid"
 	"verifharness/internal/model"
@@ -584,6 +585,73 @@ func interleavedUploads(run *evid.Run, idx int) {
 	}
 }
 
+// idSpy hands out what ociunify's members are asked to do, so that the harness learns each member's
+// own upload id (the unifier's id is opaque).
+type idSpy struct {
+	ociregistry.Interface
+	ids *[]string
+}
+
+func (s idSpy) PushBlobChunked(ctx context.Context, repo string, hint int) (ociregistry.BlobWriter, error) {
+	w, err := s.Interface.PushBlobChunked(ctx, repo, hint)
+	if err == nil {
+		*s.ids = append(*s.ids, w.ID())
+	}
+	return w, err
+}
+
+// unifyDivergedSession: the registry is a unifier over two in-memory registries of which one has received
+// a chunk the other has not (what a partially failed write leaves behind). Data sent at an offset that is
+// not what the registry - both of its halves - has received is refused and alters nothing, on either half.
+func unifyDivergedSession(run *evid.Run, idx int) {
+	mems := [2]*ocimem.Registry{ocimem.New(), ocimem.New()}
+	var ids [2][]string
+	u := ociunify.New(idSpy{mems[0], &ids[0]}, idSpy{mems[1], &ids[1]}, nil)
+	const repo = "ud/r"
+	w, err := u.PushBlobChunked(bg, repo, 0)
+	if err != nil || len(ids[0]) == 0 || len(ids[1]) == 0 {
+		run.Inconclusive("unify-diverged-session setup failed")
+		return
+	}
+	w.Write([]byte("hello"))
+	w.Close()
+	ahead := idx % 2
+	if wa, err := mems[ahead].PushBlobChunkedResume(bg, repo, ids[ahead][0], -1, 0); err == nil {
+		wa.Write([]byte("!!"))
+	}
+	sizes := func() (out [2]int64) {
+		for i := range mems {
+			out[i] = -1
+			if wm, err := mems[i].PushBlobChunkedResume(bg, repo, ids[i][0], -1, 0); err == nil {
+				out[i] = wm.Size()
+			}
+		}
+		return
+	}
+	before := sizes()
+	off := []int64{5, 7, 6, -1}[idx/2%4]
+	run.Eval(1)
+	var rerr, werr error
+	if !run.Case("total/unify-diverged", map[string]any{"resume_offset": off}, func() {
+		var w2 ociregistry.BlobWriter
+		w2, rerr = u.PushBlobChunkedResume(bg, repo, w.ID(), off, 0)
+		if rerr == nil && w2 != nil {
+			if _, werr = w2.Write([]byte("world")); werr == nil {
+				werr = w2.Close()
+			}
+		}
+	}) {
+		return
+	}
+	after := sizes()
+	run.Count("unify_diverged_session_resumes", 1)
+	run.Distinct(fmt.Sprintf("unify-diverged/ahead=%d/offset=%d/refused=%v", ahead, off, rerr != nil || werr != nil))
+	if (rerr != nil || werr != nil) && after != before {
+		run.Violation("refused-data-altered-upload/unify-diverged", fmt.Sprintf("the two halves of the unified registry held %v bytes of the upload; 5 bytes sent at offset %d were refused (%v / %v), yet the halves now hold %v", before, off, rerr, werr, after),
+			map[string]any{"held_before": before, "held_after": after, "offset": off})
+	}
+}
+
 func main() {
 	run := evid.Start("C04", "exploration")
 	run.SetRule("a case is one upload scenario: (stack, content, partition into Write calls, chunk-size hint, subset of write boundaries with close-and-resume, resume mode {at Size(), -1}, fault {none, wrong-offset resume, wrong commit digest}). Enumerated completely for content lengths 0..L on the in-memory registry (quick L=6, thorough L=9) and 0..5/0..7 over one HTTP hop; sampled for the other stacks and for contents of up to 5 registry chunks (8 KiB) with hints around the minimum. " +
@@ -738,6 +806,10 @@ func main() {
 		interleavedUploads(run, i)
 	}
 	run.FloorCounter("interleaved_uploads_committed", 300)
+	for i := 0; i < 16; i++ {
+		unifyDivergedSession(run, i)
+	}
+	run.FloorCounter("unify_diverged_session_resumes", 16)
 	run.FloorCounter("recommits_after_more_data", 20)
 	run.FloorCounter("wrong_offset_resumes", 50)
 	run.FloorCounter("wrong_offset_data_sent_by_commit", 10)
